@@ -56,6 +56,7 @@ func runC04(p *core.Prog, r *core.Result) {
 		"R4.7 Run returns wait() of the target obtained for the requested label",
 		"R4.11 a target continues past its dependency request only after every requested dependency has finished: every return of EvaluateTargets lies behind the loop that waits for each started target (the return taken when the cycle check fails does not - see the known finding: there every result, also of dependencies that are not on the cycle, carries the cyclic-dependency error and nothing is waited for; C05's rules R5.2/R5.6 depend on exactly that)",
 		"R4.12 no function of the build engine (packages dawn, runner) returns with a mutex it took still locked unless the release is deferred: the target table is consulted under Project.m by every lookup of a run, so a lock leaked on one exit (the unknown-target return) blocks every later lookup and the dependents of whatever is looked up afterwards never get an outcome",
+		"R4.13 a target runs only after every requested dependency has finished: its own verdict (Target.upToDate(), which for a source file is where the file is hashed) is taken behind the request for its dependencies - a generated source that is hashed before its generator was even requested records and hands on the sum of the previous contents (C02's R2.11)",
 		"R4.10 EvaluateTargets answers positionally: the slice of targets it starts, checks and waits for holds getTarget(labels[i]) at index i for every i (or is appended to once per label, unconditionally, in order), and the results slice has len(labels) elements - so results[i] is the outcome of labels[i] even when a label is listed twice",
 		"R4.9 the loader the runner calls is injective on labels: (*Project).LoadTarget hands out the registry entry stored under the canonical string of exactly the label it was asked for - the runner deduplicates by label string, so a second lookup under another key (an alias, a default name) gives one target two runner entries and it executes twice",
 		"R4.8 the only outcome that lets a requester continue without waiting - the cyclic-dependency error - is constructed only where the walk over published waiting sets has come back to the requester's own target (a diamond or a repeated label is not a cycle)",
@@ -192,6 +193,7 @@ func runC04(p *core.Prog, r *core.Result) {
 	checkLabelsWiring(p, r, a, "R4.10")
 	checkReturnsAfterWaits(p, r, a, "R4.11")
 	checkLocksReleased(p, r, "R4.12")
+	checkVerdictAfterDependencies(p, r, "R4.13")
 
 	// R4.5 / R4.6
 	waits := findWaits(p, r, "R4.5")
@@ -1248,6 +1250,7 @@ func runC09(p *core.Prog, r *core.Result) {
 		"R9.6 waiting on dependencies happens outside a slot",
 		"R9.7 the limit is runtime.NumCPU(), stored unmodified",
 		"R9.8 a target requests dependencies only from the goroutine that holds its slot: no goroutine started outside package runner reaches Engine.EvaluateTargets (two concurrent requests of one target give its one slot back twice, so one body more than the limit runs until the first request returns)",
+		"R9.9 a build is one runner.Run with one gate: nothing that (*module).env puts into the environment of build files reaches Project.Run (the REPL's run() builtin does, and stays in REPLEnv) - a target body that starts a build of its own executes that build's bodies next to its own build's while still holding one of its slots",
 	}
 	r.NotDecided = []string{"the instantaneous bound as a property of schedules (follows from the above under Mutex/Cond semantics, which are trusted)"}
 	a := resolveRunner(p, r, "R9.0")
@@ -1257,6 +1260,7 @@ func runC09(p *core.Prog, r *core.Result) {
 	// R9.1 who may call + pairing
 	checkSlotPairing(p, r, a, "R9.1")
 	checkEngineNotFromGoroutines(p, r, "R9.8")
+	checkRunNotInModuleEnv(p, r, "R9.9")
 
 	// R9.2
 	n := guarded(p, r, "R9.2", core.GuardSpec{Rel: "runner", Type: "gate", Field: "capacity", Lock: "m"})
